@@ -181,7 +181,7 @@ def registered_server(mods, case, i, cache={}):
             d += struct.pack('>i', rep)
         iface._handle_request(d, (s.addr.hostname, s.addr.port))
         t0 = time.time()
-        while not done and time.time() - t0 < 10:
+        while not done and time.time() - t0 < 3:
             time.sleep(0.002)
         sw._server_registering = False
         if not done:
@@ -192,7 +192,10 @@ def registered_server(mods, case, i, cache={}):
 def run_srv_once(mods, case):
     srv, nad, bus, buf = mods
     if case['kind'] == 'reg':
-        servers = [registered_server(mods, case, i) for i in range(len(case['servers']))]
+        try:
+            servers = [registered_server(mods, case, i) for i in range(len(case['servers']))]
+        except Exception as ex:     # registration itself failed: recorded, judged by the spec ("raised")
+            return [dict(n='alloc', x=1, k='exc:registration:' + type(ex).__name__, r=-2, w=1)], []
     else:
         servers = [make_server(srv, nad, case)]
     what = case['what']
